@@ -44,6 +44,8 @@ type c18Call struct {
 	FailAt  int // -1 none
 	TruncAt int // -1 none
 	OnceAt  int // -1 none: a transient read error at this offset
+	ErrTemp bool // the injected error calls itself temporary / a timeout
+	ErrData bool // the sticky error arrives together with the last bytes before it
 }
 
 type c18Result struct {
@@ -232,6 +234,9 @@ func c18Seed(t *rt.Tape, r *rt.Run, entry string) []byte {
 
 var zoneRe = regexp.MustCompile(` [+-][0-9]{4}\n`)
 
+// the date of a changelog trailer: "  Mon, 02 Jan 2006 15:04:05 "
+var dateRe = regexp.MustCompile(`  ([A-Z][a-z]{2}), ([0-9]{2}) ([A-Z][a-z]{2}) ([0-9]{4}) `)
+
 func c18Mutate(t *rt.Tape, data []byte) []byte {
 	out := append([]byte(nil), data...)
 	n := 1 + t.Draw(4, "mut.n")
@@ -241,7 +246,29 @@ func c18Mutate(t *rt.Tape, data []byte) []byte {
 		if len(out) > 0 {
 			p = t.Draw(len(out)+1, "mut.pos")
 		}
-		switch t.Draw(8, "mut.op") {
+		switch t.Draw(9, "mut.op") {
+		case 8: // another spelling of a trailer date (some are legal for dpkg, none is RFC 1123 with two-digit day)
+			if m := dateRe.FindSubmatchIndex(out); m != nil {
+				wd, dd, mon, yyyy := string(out[m[2]:m[3]]), string(out[m[4]:m[5]]), string(out[m[6]:m[7]]), string(out[m[8]:m[9]])
+				var alt string
+				switch t.Draw(7, "mut.date") {
+				case 0:
+					alt = fmt.Sprintf("  %s, %s %s %s ", wd, strings.TrimPrefix(dd, "0"), mon, yyyy) // one-digit day
+				case 1:
+					alt = fmt.Sprintf("  %s %s %s ", dd, mon, yyyy) // no day of week
+				case 2:
+					alt = fmt.Sprintf("  %s %s %s ", strings.TrimPrefix(dd, "0"), mon, yyyy)
+				case 3:
+					alt = fmt.Sprintf("  %s, %s %s %s ", wd, dd, strings.ToLower(mon), yyyy)
+				case 4:
+					alt = fmt.Sprintf("  %s, %s %s %s ", wd, dd, mon, yyyy[2:]) // two-digit year
+				case 5:
+					alt = fmt.Sprintf("  %sday, %s %s %s ", wd, dd, mon, yyyy)
+				default:
+					alt = fmt.Sprintf("  %s-%s-%s ", yyyy, "01", dd) // ISO-like
+				}
+				out = append(append(append([]byte{}, out[:m[0]]...), []byte(alt)...), out[m[1]:]...)
+			}
 		case 7: // a numeric zone offset replaced by a zone abbreviation
 			if loc := zoneRe.FindIndex(out); loc != nil {
 				abbr := []string{" CET", " EST", " UTC", " CEST", " XYZ"}[t.Draw(5, "mut.abbr")]
@@ -323,6 +350,10 @@ func c18GenCalls(t *rt.Tape, r *rt.Run) []c18Call {
 			case 3:
 				c.OnceAt = t.Draw(len(c.Input)+1, "c18.onceat")
 			}
+			if c.FailAt >= 0 || c.OnceAt >= 0 {
+				c.ErrTemp = t.Bool(1, 3, "c18.errtemporary")
+				c.ErrData = t.Bool(1, 4, "c18.errwithdata")
+			}
 		}
 		calls = append(calls, c)
 	}
@@ -343,6 +374,10 @@ func c18Reader(r *rt.Run, c c18Call, name string) *simio.Reader {
 	if c.OnceAt >= 0 {
 		rd.FailOnceAt(c.OnceAt)
 	}
+	if c.ErrTemp {
+		r.Probe("read-error-that-calls-itself-temporary")
+	}
+	rd.SetErrFlavour(c.ErrTemp, c.ErrData)
 	return rd
 }
 
@@ -381,7 +416,9 @@ func runC18(r *rt.Run, tier string) {
 			maxIn = len(c.Input)
 		}
 	}
-	r.StepBudget = int64(len(calls)*4) * int64(1000*(maxIn+100))
+	// measured on the unchanged tree: at most 2 steps per (call x phase x input
+	// byte + 100); 40 leaves a factor of 20 and keeps a hanging parser cheap to catch
+	r.StepBudget = int64(len(calls)*4) * int64(40*(maxIn+100))
 	r.Event("workload", fmt.Sprintf("tasks=%d", len(calls)), fmt.Sprintf("yield-sites=%d/%d", len(sites), total))
 
 	// 1. each call alone
@@ -577,5 +614,5 @@ func init() {
 		},
 		Assumptions: []string{"inputs are grammar-derived seeds under tape-driven mutation and raw bytes; coverage-guided fuzzing (named in the quantifier) is a different technique", "value-typed results (version.Version, structs filled through Unmarshal) are exempt from the value-or-error clause: the value always exists", "results are compared through their JSON rendering"},
 	})
-	propProbes["C18"] = []string{"transient-read-fault", "same-input-other-process-time-zone", "same-bytes-other-delivery", "call-succeeded", "call-returned-error", "calls-interleaved-inside-parsers"}
+	propProbes["C18"] = []string{"read-error-that-calls-itself-temporary", "transient-read-fault", "same-input-other-process-time-zone", "same-bytes-other-delivery", "call-succeeded", "call-returned-error", "calls-interleaved-inside-parsers"}
 }
